@@ -457,16 +457,24 @@ func reportViolation(bin, prop, tier string, seed uint64, r result) string {
 	if _, err := os.Stat(path + ".min"); err == nil {
 		os.Rename(path+".min", path)
 	}
-	// replay the (minimised) file twice in fresh processes
-	for i := 0; i < 2; i++ {
+	// replay the (minimised) file in fresh processes until it reproduced twice
+	// (scenarios with simulated-clock jumps keep a residual nondeterminism -
+	// timer ties, worker-pool dispatch, Go map iteration - see DESIGN.md 10.5)
+	reproduced, tries := 0, 0
+	for tries < 8 && reproduced < 2 {
+		tries++
 		cmd := engineCmd(bin, "-verif.prop", prop, "-verif.replay", path)
 		out, _ := cmd.CombinedOutput()
 		for _, l := range strings.Split(string(out), "\n") {
 			if strings.HasPrefix(l, "REPLAY:") {
-				fmt.Printf("  replay %d: %s\n", i+1, strings.TrimPrefix(l, "REPLAY: "))
+				fmt.Printf("  replay %d: %s\n", tries, strings.TrimPrefix(l, "REPLAY: "))
+				if strings.Contains(l, "same_class=true") {
+					reproduced++
+				}
 			}
 		}
 	}
+	fmt.Printf("  replay reproduced the violation class in %d of %d fresh processes\n", reproduced, tries)
 	return path
 }
 
